@@ -923,6 +923,7 @@ impl World {
                     Some(h) => h,
                     None => return Outcome::Nop,
                 };
+                self.tags.insert("isolation-used");
                 self.reps[r].doc.isolate(&to_hashes(&hs));
                 self.reps[r].isolated = Some(hs);
                 Outcome::Other
